@@ -47,6 +47,10 @@ type c18cRoamer struct {
 	Payload int  `json:"payload"` // payload length of the PUBLISH that is never completed
 	During  bool `json:"during"`  // taken over while the streams run (else before they start)
 	ByWS    bool `json:"by_ws"`   // the take-over CONNECT arrives over websocket too
+	// Poison: instead of being taken over, the connection sends ONE complete binary message holding CONNECT, a malformed
+	// packet (PUBLISH with QoS 3) and Payload more bytes behind it; the broker closes the connection with the rest of
+	// that message unread. Nothing of it may ever show up in another connection's stream.
+	Poison bool `json:"poison,omitempty"`
 }
 
 type c18cScen struct {
@@ -91,7 +95,7 @@ func genC18Conc(t *rapid.T) c18cScen {
 	nr := rapid.IntRange(0, 6).Draw(t, "nroamers")
 	for i := 0; i < nr; i++ {
 		s.Roamers = append(s.Roamers, c18cRoamer{Frames: rapid.IntRange(1, 3).Draw(t, "frames"), Payload: rapid.SampledFrom([]int{50, 300, 2000}).Draw(t, "payload"),
-			During: rapid.Bool().Draw(t, "during"), ByWS: rapid.IntRange(0, 3).Draw(t, "byws") == 0})
+			During: rapid.Bool().Draw(t, "during"), ByWS: rapid.IntRange(0, 3).Draw(t, "byws") == 0, Poison: rapid.IntRange(0, 2).Draw(t, "poison") == 0})
 	}
 	return s
 }
@@ -121,6 +125,26 @@ func runC18Conc(s c18cScen, c *ev.Case) *ev.Violation {
 		defer cl.Kill()
 		name, lvl := mw.ProtoFor(mw.V311)
 		cb, _ := mw.Encode(&mw.Packet{Type: mw.CONNECT, ProtoName: name, ProtoLevel: lvl, CleanStart: true, ClientID: id}, mw.V311)
+		if r.Poison {
+			n := r.Payload * 4 // 200 / 1200 / 8000: mostly more than one read of the packet reader
+			if n < 8 {
+				n = 8
+			}
+			if n > 8000 {
+				n = 8000
+			}
+			msg := append([]byte(nil), cb...)
+			msg = append(msg, 0x36, 0x02, 0x00, 0x00) // PUBLISH with QoS 3: malformed
+			msg = append(msg, c18Payload(s.Seed, 2000+i, n)...)
+			if err := ws.WriteMessage(fixture.WSBinary, msg); err != nil {
+				return harnessErr("poison message: %v", err)
+			}
+			if !cl.WaitClosed(fixture.DefaultWait) {
+				return ev.Violf("C18.stalled", "roamer %d: a binary message holding CONNECT and a malformed packet did not make the broker close the connection within %v", i, fixture.DefaultWait)
+			}
+			c.Label("roamer_closed_with_unread_remainder")
+			return nil
+		}
 		if err := ws.WriteMessage(fixture.WSBinary, cb); err != nil {
 			return harnessErr("roamer CONNECT: %v", err)
 		}
